@@ -7,6 +7,7 @@ import (
 	"fmt"
 	"math"
 	"math/big"
+	"net"
 	"os"
 	"path/filepath"
 	"regexp"
@@ -80,6 +81,9 @@ var c19Prefs = func() map[refbmc.Suite][]ipmi.CipherSuite {
 	}
 	return m
 }()
+
+// c19AuthCapsReq is shared by every worker.
+var c19AuthCapsReq = &ipmi.GetChannelAuthenticationCapabilitiesReq{ExtendedData: true, Channel: ipmi.ChannelPresentInterface, MaxPrivilegeLevel: ipmi.PrivilegeLevelUser}
 
 const c19PwLen = 10
 
@@ -198,7 +202,13 @@ func c19Worker(seed int64, id int, useUDP bool, concurrent bool) (transcript []s
 		}
 		return 0, nil, false
 	}
-	inner := refbmc.Chain(odd, extra, repo.Handle, cssrv.Handle, sd.Handle, dcm.Handle, refbmc.Fixed(6, 0x37, 0, guid), refbmc.Fixed(6, 0x01, 0, devid),
+	oldStyle := func(e *refbmc.Event) (byte, []byte, bool) {
+		if id%8 == 5 && e.Kind == "session-ipmi" && e.NetFn == 6 && e.Cmd == 0x38 && len(e.Data) == 2 && e.Data[0]&0x80 != 0 {
+			return 0xcc, nil, true // a v1.5-era command handler: "invalid data field" for the v2.0 bit
+		}
+		return 0, nil, false
+	}
+	inner := refbmc.Chain(oldStyle, odd, extra, repo.Handle, cssrv.Handle, sd.Handle, dcm.Handle, refbmc.Fixed(6, 0x37, 0, guid), refbmc.Fixed(6, 0x01, 0, devid),
 		refbmc.Fixed(6, 0x38, 0, []byte{1, 0x80, 0x14, 0x02, 0, 0, 0, byte(id)}), refbmc.Fixed(0, 0x01, 0, []byte{0x21, 0x10, 0x40, byte(id)}), refbmc.Fixed(6, 0x3c, 0, nil))
 	b.Handler = func(e *refbmc.Event) (byte, []byte, bool) {
 		c19Stamp(id)
@@ -206,6 +216,7 @@ func c19Worker(seed int64, id int, useUDP bool, concurrent bool) (transcript []s
 	}
 	var st *bmc.V2SessionlessTransport
 	var srv *udpbmc.Server
+	dialAddr := ""
 	if useUDP {
 		var err error
 		srv, err = udpbmc.Listen(b)
@@ -220,7 +231,17 @@ func c19Worker(seed int64, id int, useUDP bool, concurrent bool) (transcript []s
 			defer jmu.Unlock()
 			return time.Duration(jr.Intn(2000)) * time.Microsecond
 		})
-		st, err = bmc.DialV2(srv.Addr(), bmc.WithTimeout(4*time.Second))
+		// a quarter of the fleet is addressed by host name (the same name for all of them, as BMCs
+		// behind one NAT address or one test host are), the rest by IP literal
+		dialAddr = srv.Addr()
+		if id%4 == 0 {
+			if byName := strings.Replace(dialAddr, "127.0.0.1", "localhost", 1); byName != dialAddr {
+				if a, rerr := net.ResolveUDPAddr("udp", byName); rerr == nil && a.IP.Equal(net.IPv4(127, 0, 0, 1)) {
+					dialAddr = byName
+				}
+			}
+		}
+		st, err = bmc.DialV2(dialAddr, bmc.WithTimeout(4*time.Second))
 		if err != nil {
 			return nil, "udp dial: " + err.Error()
 		}
@@ -255,7 +276,7 @@ func c19Worker(seed int64, id int, useUDP bool, concurrent bool) (transcript []s
 	}()
 	dial := func() *bmc.V2SessionlessTransport {
 		if useUDP {
-			n, err := bmc.DialV2(srv.Addr(), bmc.WithTimeout(4*time.Second))
+			n, err := bmc.DialV2(dialAddr, bmc.WithTimeout(4*time.Second))
 			if err != nil {
 				return nil
 			}
@@ -395,11 +416,15 @@ func c19Worker(seed int64, id int, useUDP bool, concurrent bool) (transcript []s
 				rec("dcmi", nil, err)
 			}
 		case 9:
-			v, err := sess.GetChannelAuthenticationCapabilities(ctx, &ipmi.GetChannelAuthenticationCapabilitiesReq{ExtendedData: true, Channel: ipmi.ChannelPresentInterface, MaxPrivilegeLevel: ipmi.PrivilegeLevelUser})
+			// one request value for the whole fleet (read-only for the library): it asks for the extended data
+			v, err := sess.GetChannelAuthenticationCapabilities(ctx, c19AuthCapsReq)
 			if v != nil {
 				rec("authcaps", fmt.Sprintf("%v %v %d", v.Channel, v.SupportsV2, v.OEMData), err)
 			} else {
 				rec("authcaps", nil, err)
+			}
+			if last := b.Last(); last != nil && last.NetFn == 6 && last.Cmd == 0x38 && (len(last.Data) != 2 || last.Data[0]&0x80 == 0) {
+				transcript = append(transcript, fmt.Sprintf("%sGet Channel Authentication Capabilities request data %x reached this worker's BMC: the caller asked for the extended data (bit 7 of the first byte) on the present interface", c19Absolute, last.Data))
 			}
 		case 10:
 			cmd := &RawCmd{Op: ipmi.Operation{Function: ipmi.NetworkFunctionAppReq, Command: 0x01}, NoReq: true}
